@@ -306,7 +306,9 @@ pub(crate) fn recv_batch_sync<T: Send>(
       let mut guard = receiver.shared.internal.lock();
       guard.waiting_sync_receivers.retain(|w| w.state != done_ptr);
       drop(guard);
-      return Err(RecvError::Disconnected);
+      // Closed, but items handed to other woken receivers may still be
+      // buffered: re-drain (Phase 1 reports Disconnected only when empty).
+      continue;
     }
   }
 }
@@ -358,7 +360,9 @@ pub(crate) fn recv_sync<T: Send>(receiver: &Receiver<T>) -> Result<T, RecvError>
       let mut guard = receiver.shared.internal.lock();
       guard.waiting_sync_receivers.retain(|w| w.state != done_ptr);
       drop(guard);
-      return Err(RecvError::Disconnected);
+      // Closed, but items handed to other woken receivers may still be
+      // buffered: re-drain (Phase 1 reports Disconnected only when empty).
+      continue;
     }
   }
 }
